@@ -216,7 +216,7 @@ NONDET = r'^(rand::|rand_core::|std::env::|std::fs::|std::thread::|std::process:
 # ---------------------------------------------------------------------------------------
 # P4 with value-numbered predicates: path-sensitive simulation that remembers the outcome of
 # tests on stable expressions, so correlated tests prune infeasible paths.
-def _stable(e):
+def stable_expr(e):
     for x in walk(e):
         if not isinstance(x, tuple) or not x:
             continue
@@ -344,7 +344,7 @@ def fact_sim(f, track, init_flags=frozenset(), on_call=None, on_edge_flags=None)
         efs = edge_fact(d, v, vals)
         newfacts = set(facts)
         for ef in efs:
-            if not _stable(ef[0]) or not track(ef[0]):
+            if not stable_expr(ef[0]) or not track(ef[0]):
                 continue
             if not consistent(newfacts, ef):
                 return None
